@@ -154,7 +154,7 @@ theorem readAtom_no_panic (s : Str) : ∀ p, readAtom s ≠ .panic p := by
 
 theorem bodyStep_no_panic (s : Str) : ∀ p, bodyStep s ≠ .panic p := by
   intro p h
-  unfold bodyStep at h
+  unfold bodyStep unionStep at h
   split at h
   · cases h
   · cases h
